@@ -5,7 +5,7 @@ TRUSTED_BASE = [
     "CBMC 6.11.0 + CaDiCaL",
     "ghost allocator stubs replacing alloc::alloc::{alloc,dealloc,dealloc_nonnull} (presence checked via '- Stub:' lines)",
     "rustc front end of Kani's pinned nightly toolchain",
-    "Verus 0.2026.09.13 / Z3 for the lemma files; assume_specification of core::alloc::Layout API",
+    "Verus 0.2026.09.13 / Z3 for the lemma files (layout_extracted.rs: statements verbatim from /repo/src/arc.rs; spec_forms.rs: the closed forms of harness/vrt.rs verbatim; history_lemma.rs: generated from contracts/ops.toml); assume_specification of core::alloc::Layout API",
     "third-party crates serde, stable_deref_trait, unsize, arc-swap executed as is",
 ]
 
